@@ -52,11 +52,11 @@ func hC02Check(src string) {
 // identifier / literal tokens and non-canonical spellings.
 //
 //vf:unwind 400
-//vf:shards 13
+//vf:shards 15
 //vf:steps 80000000
 func VfC02_Template() {
 	var src string
-	switch vfChoice("template", 13) {
+	switch vfChoice("template", 15) {
 	case 0: // redundant quoting, definitions out of printer order, decimal literal
 		a, b := hLetterIn("a", 'a', 'f'), hLetterIn("b", 'g', 'k')
 		d := hDigits("d", 2, '0', '9')
@@ -72,6 +72,10 @@ func VfC02_Template() {
 		src = "@c = global i16 -" + hDigits("d", 2, '1', '9') + "\n"
 	case 10:
 		src = "@e = global i64 u0x" + hHexDigits("h", 2) + "000000\n"
+	case 13: // every optional part of global, alias, declaration and definition headers at once (accepted by llvm-as 14)
+		src = hSoupHeaders(hLetterIn("a", 'i', 'n'))
+	case 14: // every optional flag of the instructions that have any (accepted by llvm-as 14)
+		src = hSoupInsts(hLetterIn("a", 'a', 'e'))
 	case 12: // floating-point literals (concrete values: decimal/scientific forms and the extended kinds run natively through big.Float and mewmew/float)
 		a := hLetterIn("a", 'a', 'f')
 		src = "@" + a + " = global double 1000000.0\n@d2 = global double 1.0e22\n@d3 = global double 0.1\n@d4 = global double -2.5e-3\n" +
@@ -214,4 +218,16 @@ func VfC02_DINodes() {
 		hMDVary(node, v-1)
 	}
 	hC02Check(m.String())
+}
+
+// hSoupHeaders: a module whose global, alias, declaration and definition
+// headers carry every optional part at once; a names one global.
+func hSoupHeaders(a string) string {
+	return "$c = comdat any\n@g = internal thread_local(localexec) local_unnamed_addr addrspace(2) constant i32 1, section \"s\", partition \"p\", comdat($c), align 4, !dbg !0\n@h = external dllimport externally_initialized global i32, align 8\n" + "@" + a + " = weak_odr" + " dso_local protected unnamed_addr global [2 x i8] c\"a\\00\", comdat($c)\n@al = internal thread_local unnamed_addr alias i32, i32 addrspace(2)* @g\ndeclare dso_local dllexport zeroext i32 @d(i32 inreg signext, i8* nocapture readonly byval(i8) align 4) local_unnamed_addr addrspace(1) #0 section \"t\" align 16 gc \"shadow-stack\"\ndefine hidden fastcc noalias i8* @f(i32 inreg %x, i8* nonnull dereferenceable(8) %p) unnamed_addr #0 section \"s\" comdat($c) align 8 gc \"g\" prefix i32 1 prologue i8 2 personality i8* null !dbg !1 {\nentry:\n  ret i8* %p\n}\nattributes #0 = { nounwind readnone \"k\"=\"v\" uwtable allocsize(0) }\n!llvm.dbg.cu = !{!2}\n!llvm.module.flags = !{!4}\n!0 = !DIGlobalVariableExpression(var: !5, expr: !DIExpression())\n!1 = distinct !DISubprogram(name: \"f\", unit: !2, file: !3, spFlags: DISPFlagDefinition)\n!2 = distinct !DICompileUnit(language: DW_LANG_C99, file: !3, emissionKind: FullDebug)\n!3 = !DIFile(filename: \"a.c\", directory: \"/\")\n!4 = !{i32 2, !\"Debug Info Version\", i32 3}\n!5 = distinct !DIGlobalVariable(name: \"g\", scope: !2, file: !3, line: 1, type: !6, isLocal: true, isDefinition: true)\n!6 = !DIBasicType(name: \"int\", size: 32, encoding: DW_ATE_signed)\n"
+}
+
+// hSoupInsts: a function in which every instruction that has optional flags
+// carries them; a names the function.
+func hSoupInsts(a string) string {
+	return "declare i32 @g(i32)\ndeclare void @v()\ndeclare i32 @pers(...)\n" + "define void @" + a + "(" + "i32 %x, i32* %p, float %fl, <2 x float> %vf, i1 %c, { i32, i8 } %agg) personality i8* bitcast (i32 (...)* @pers to i8*) {\nentry:\n  %a1 = add nuw nsw i32 %x, 1\n  %a2 = sub nsw i32 %a1, %x\n  %a3 = mul nuw i32 %a2, 3\n  %a4 = shl nuw nsw i32 %a3, 1\n  %a5 = udiv exact i32 %a4, 2\n  %a6 = ashr exact i32 %a5, 1\n  %f1 = fadd fast float %fl, 1.0\n  %f2 = fmul nnan ninf nsz arcp contract afn reassoc float %f1, %fl\n  %f3 = fneg nnan float %f2\n  %f4 = fcmp nnan ninf olt float %f3, %fl\n  %s1 = select fast i1 %c, float %f1, float %f2\n  %al = alloca inalloca i32, i32 2, align 8\n  %l1 = load volatile i32, i32* %p, align 4\n  %l2 = load atomic volatile i32, i32* %p syncscope(\"agent\") seq_cst, align 4\n  store volatile i32 %l1, i32* %p, align 4\n  store atomic volatile i32 %l2, i32* %p syncscope(\"agent\") release, align 4\n  fence syncscope(\"agent\") acq_rel\n  %cx = cmpxchg weak volatile i32* %p, i32 %l1, i32 %l2 syncscope(\"agent\") acq_rel monotonic, align 4\n  %rmw = atomicrmw volatile xchg i32* %p, i32 %x syncscope(\"agent\") acquire, align 4\n  %gp = getelementptr inbounds i32, i32* %p, i32 1\n  %c1 = tail call fastcc zeroext i32 @g(i32 signext %x) #0\n  %c2 = notail call i32 @g(i32 %x)\n  %ev = extractvalue { i32, i8 } %agg, 0\n  %ve = extractelement <2 x float> %vf, i32 0\n  %sv = shufflevector <2 x float> %vf, <2 x float> %vf, <2 x i32> <i32 0, i32 3>\n  %iv = invoke fastcc i32 @g(i32 %x) to label %ok unwind label %lp\nok:\n  %ph = phi fast float [ %f1, %entry ]\n  ret void\nlp:\n  %e = landingpad { i8*, i32 } cleanup catch i8* null filter [0 x i8*] zeroinitializer\n  resume { i8*, i32 } %e\n}\nattributes #0 = { nounwind }\n"
 }
